@@ -200,6 +200,20 @@ def gen(rng, k, dll=None):
             inject.append(dict(t=t1 + 60000 * (q + 1), to=0, id=did, data=[q + 1] + (second[7 * q:7 * q + 7] + [255] * 7)[:7], via='listener'))
         expect_cb.append((0xFE55, second))
         t_stream_end = max(t_stream_end, t1 + 60000 * (n2 + 1))
+    # directed family: the peer repeats its request-to-send (a retransmission: same announcement, before any data) several times
+    # and then falls silent: the session it opened is supervised from the LAST frame — repetitions do not add up
+    t_release = None
+    if rng.random() < 0.12:
+        t0 = t_stream_end + 1_400_000
+        reps = rng.choice([2, 4, 6])
+        gap = rng.choice([500, 20000, 200000])
+        for i in range(reps):
+            if dll == 'j1939-22':
+                inject.append(dict(t=t0 + i * gap, to=0, id=R.ref_can_id(7, 0x4D00 + LOCAL_E, PEER), data=fd_cm(0, 5, 150, 3, 255, 0, 0xD400), fd=True, via='listener'))
+            else:
+                inject.append(dict(t=t0 + i * gap, to=0, id=R.ref_can_id(7, 0xEC00 + LOCAL_E, PEER), data=R.ref_rts(30, 5, 255, 0xD400), via='listener'))
+        t_stream_end = t0 + (reps - 1) * gap
+        t_release = t_stream_end + 1_250_000 + 350_000
     # directed family: a diagnostic service (cyclic DM1) runs on the local CA when a contender with a lower NAME takes its address
     if rng.random() < 0.12:
         script.append(dict(t=1500, s=0, op='dm1_start', ca=0, cycle=rng.choice([50000, 100000])))
@@ -215,6 +229,8 @@ def gen(rng, k, dll=None):
     t_quiet -= t_quiet % TICK
     t_quiet += TICK // 2
     script.append(dict(t=1000, s=0, op='add_timer', cid=900, delta=TICK, ret=True))
+    if t_release is not None:
+        script.append(dict(t=t_release, s=0, op='probe'))
     script.append(dict(t=t_quiet, s=0, op='probe'))
     script.append(dict(t=t_quiet + 10, s=1, op='on_bus'))
     p1 = dict(seed=rng.getrandbits(20), len=big + 3)
